@@ -42,10 +42,12 @@ func (r *Room) Add(conn *Connection) error {
 
 	// Check if room is full
 	if r.maxConnections > 0 && len(r.connections) >= r.maxConnections {
+		verifStep("RoomAdd", r.Name, conn, false)
 		return ErrRoomFull
 	}
 
 	r.connections[conn] = true
+	verifStep("RoomAdd", r.Name, conn, true)
 	return nil
 }
 
@@ -54,6 +56,7 @@ func (r *Room) Remove(conn *Connection) {
 	r.mu.Lock()
 	defer r.mu.Unlock()
 	delete(r.connections, conn)
+	verifStep("RoomRemove", r.Name, conn)
 }
 
 // Has checks if a connection is in the room
@@ -67,6 +70,8 @@ func (r *Room) Has(conn *Connection) bool {
 func (r *Room) Broadcast(message []byte, exclude *Connection) {
 	r.mu.RLock()
 	defer r.mu.RUnlock()
+	verifStep("RoomCastBegin", r.Name)
+	defer verifStep("RoomCastEnd", r.Name)
 
 	for conn := range r.connections {
 		if exclude != nil && conn == exclude {
